@@ -16,6 +16,7 @@ PROPS["C02"] = {
                   P("hamt", "VerifCheckLogTwo"), P("hamt", "VerifMkmask"),
                   P("hamt", "VerifBitfieldLaws", nb=1), P("hamt", "VerifBitfieldLaws", nb=2),
                   P("hamt", "VerifBitfieldSetBit", nb=2),
+                  P("test", "VerifShardedDir", lg=3, entries=2, maxdepth=2),
                   ],
     },
     "bounds": {"quick": "K1: all 2^64 hashes x log2(fanout) 3..10 x depth 0..21"},
@@ -57,6 +58,22 @@ PROPS["C11"] = {
     "bounds": {"quick": "files: w=2 size-2 n<=5 (short last chunk), w=3 n<=10"},
     "assumptions": [],
     "outside": "",
+}
+
+PROPS["C05"] = {
+    "programs": {"quick": [P("test", "VerifFileRangeLoads", must_reach=("end","single-block"), w=2, k=2, maxlen=6)]},
+    "bounds": {"quick": "files 1..6 bytes, w=2 size-2, every range [a,b)"},
+    "assumptions": [], "outside": "",
+}
+PROPS["C20"] = {
+    "programs": {"quick": [P("test", "VerifFileFullReadOrder", must_reach=("end","preload"), w=2, k=1, maxlen=6)]},
+    "bounds": {"quick": "files 0..6 chunks, w=2"},
+    "assumptions": [], "outside": "",
+}
+PROPS["C12"] = {
+    "programs": {"quick": [P("test", "VerifFileMissingBlock", w=2, k=1, maxlen=5)]},
+    "bounds": {"quick": "files 2..5 chunks, w=2; every single block missing"},
+    "assumptions": [], "outside": "",
 }
 
 NOT_APPLICABLE = {}
